@@ -6,7 +6,13 @@ parse+emit, compiled against the mock core and run with a scripted millis() per 
 coq/Device/DLCDAnim.v.  Independently of the models a property oracle is evaluated on every real
 trace (no delay, geometry, termination bound, looping never ends, rate limit, one step per due tick), for every
 animation that has its row to itself, on schedules that contain late passes followed by quick ones.  The oracle's notion
-of a due tick is cross-checked against the extracted specification schedule due_flags (C18_step_schedule_*)."""
+of a due tick is cross-checked against the extracted specification schedule due_flags (C18_step_schedule_*).
+
+Clock width: the device model the firmware is compared with is Device/DLCDAnimW.v - the limiter in W-bit unsigned arithmetic
+(W = 64 under the mock's compiler) over true tick times.  Schedules reach every region in which fixed-width arithmetic on
+millis() can go wrong: runs that cross 2^31, 2^32, 2^63 ms, runs that END at the largest unsigned long (steps within speed_ms
+of it followed by early ticks, the clock never wrapping - input line `clockbase` of the mock), periods beyond 2^31 / 2^32 ms,
+passes late by more than 2^31 / 2^32 / 2^33 ms, and (correspondence only) runs across the roll-over itself."""
 from __future__ import annotations
 
 import re
@@ -17,7 +23,7 @@ from harness import fw
 META = {
     "id": "C18",
     "technique": "Coq proof (induction over tick histories; per-style variants and invariants; finite obligations over tables regenerated from the source) + extracted-model correspondence with the real LCD object and with the emitted C++ animation helpers run under the mock core + trace oracle",
-    "level_text": "Theorems C18_* (coq/Props/C18.v) are proved for all texts, widths >= 1, speeds, loop flags and all tick-time sequences about Gallina transcriptions of LCD.animate/LCD.tick and of the four __redu_lcd_start_*/__redu_lcd_tick_* template pairs plus the tick-injection rule, and (C18_tables_complete) about the style/helper tables and helper texts re-read from emitter.py, parser.py and LCD.py on every run; the models are run side by side with the real host object (buffer assignments and every _AnimationState field after each tick) and with the compiled firmware (cell writes and DDRAM dump per loop() pass).",
+    "level_text": "Theorems C18_* (coq/Props/C18.v) are proved for all texts, widths >= 1, speeds, loop flags and all tick-time sequences about Gallina transcriptions of LCD.animate/LCD.tick and of the four __redu_lcd_start_*/__redu_lcd_tick_* template pairs plus the tick-injection rule - the device rate limiter also in the W-bit unsigned arithmetic of the emitted C++ for every width W (C18_width_model_agrees_device, C18_rate_limit_device_width: every clock value below 2^W; C18_rollover_trace_device_partial: across the roll-over) -, and (C18_tables_complete) about the style/helper tables and helper texts re-read from emitter.py, parser.py and LCD.py on every run; the models are run side by side with the real host object (buffer assignments and every _AnimationState field after each tick) and with the compiled firmware (cell writes and DDRAM dump per loop() pass).",
     "level_note": "Trusted: Coq kernel, extraction, OCaml driver, the mock LiquidCrystal/LiquidCrystal_I2C (cursor-addressed DDRAM) and its virtual millis(), g++. The theorems are about the models; the correspondence bounds their distance from LCD.py / emitter.py. Tick injection is proved without a guard on the place of the call site (C18_tick_injected, C18_loop_site_ticked, C18_function_site_ticked): before the main loop, inside `while True:` and inside function bodies, at any depth inside if/elif/else, while, for and try/except bodies (Device/DLCDInject.v: the parser's name collection and the emitter's registration pass as two recursive walks over statement trees, C18_nested_*); the two former refutations (animate inside `while True:` never ticked; animate inside a def undeclared) were repaired in Reduino and are kept as kind=fixed entries whose witnesses are replayed first on every run (a witness that fails again is a VIOLATION).",
     "design_ref": "DESIGN.md section 4 C18 (and C05 for tick injection)",
 }
@@ -1761,11 +1767,18 @@ def run(ctx: C.Ctx):
         "rule": "host: (4 styles x cols in {1,2,3,8,16,20,40} x len in {0,1,cols-1,cols,cols+1,2cols} x loop x speed in {0,1,100} x tick schedule in {ontime,early,late,equal,burst}) "
                 "(quick: two speed/schedule picks per cell rotating over all 15 pairs, thorough: all, plus every other width 1..40 with two picks per cell), plus seeded random single-animation cases "
                 "(speeds -5..70000, mixed and burst schedules) and multi-animation cases with invalid styles/rows; "
-                "device: the same grid, one LCD object per case batched into sketches that share a scripted millis() schedule (first pass at 1, 7, 1000 or just below 2^31 ms), plus speeds 7/1000/70000 "
+                "device: the same grid, one LCD object per case batched into sketches that share a scripted millis() schedule (first pass at 1, 7, 1000, just below 2^31, 2^32 or 2^63 ms - the run crosses that value - "
+                "or the whole schedule shifted so that its LAST pass is at the largest unsigned long / 1 / 3 ms below it), plus speeds 7/1000/70000 "
                 "(thorough also 2/40000 and the in-between widths 4..39), plus multi-animation / several-display / run-time-argument sketches on mixed and burst schedules, half of them with a main loop doing other work; "
                 "schedule 'burst' = late passes (2..5 periods) each followed by several quick passes (0, 1, period/4 ... apart) and then one exactly on time; 'mixed' draws gaps from {0,1,p-1,p,p+1,2p,p/2,3p+1,7p+3}; "
                 "tick histories are long enough to contain more than len+2*cols+2 due ticks (non-looping). The per-animation relations (rate limit over all pairs of steps, no due pass skipped, no frame after a skipped due pass, "
                 "termination bound, one frame per step) are evaluated for every animation that has its row to itself (device) / for every animation (host). "
+                "Clock-width families (8 displays each: 4 styles x loop on/off, four geometries, call sites at top level / in a def / in the main loop / in if / in try): "
+                "top = short schedules (early/burst/mixed gaps closed by an on-time pass, a pass in the same ms and two early ones) ENDING at ULONG_MAX, ULONG_MAX-1 or ULONG_MAX-3, speeds 1/100/1000 (thorough 1/7/100/1000/70000 x six schedule kinds): every animation steps within speed_ms of the largest unsigned long and is ticked early again while the clock is still below it; "
+                "cross = short schedules starting speed/2+1, 3*speed+1 or 1 ms below 2^31, 2^32, 2^63; bigspeed = speed_ms 2^31+5 and 2^32+7 on burst schedules (thorough also ending at ULONG_MAX); "
+                "verylate = passes late by 2^31+3, 2^32+5 and 2^33+speed ms each followed by early and on-time ones; rollover = runs that start 130 / 250 ms below 2^64 and continue beyond it, one of them with passes exactly at 2^64 (millis() reads 0) - "
+                "these are compared with the W-bit model (cell writes, matrix per pass) but NOT judged by the time relations of the oracle (register values not non-decreasing). "
+                "Host schedules: a quarter of them start at 2^32-3p-2, 2^53-p-1, 2^63-2p, 2^64-5p-3 or 10^30 (Python ints; a limiter through float or a fixed width goes wrong there). "
                 "Call-site placement: every third display of a grid sketch and every display of the multi sketches has its animate calls inside a block that runs once (if / else / elif / for / while / try / if>for>try), inside a function called once from setup (def), or - starting in the first pass, after that pass's idle tick calls, the first pass then playing the part of setup() for the display model and the oracle - inside `while True:` under a run-once guard (mainloop), nested there in for>try (mainloop-nested), or inside a function the main loop calls once (def-in-loop), "
                 "two displays per multi sketch have call sites inside (nested) except handlers (one of them only there: it never starts, its rows must stay blank, its tick calls must exist); on every transpiled sketch the "
                 "emitted text is checked: each state variable that a start call names - in setup(), in loop() or in a user function - is declared and has exactly one tick call of its style at the top level of loop(). "
@@ -1781,11 +1794,14 @@ def run(ctx: C.Ctx):
                  "1 <= cols <= 40; the place of the lcd.animate call sites is not restricted any more (before the main loop, inside it, inside functions, at any block depth: the two findings that "
                  "excluded the main loop and defs are repaired, kind=fixed, and suppress nothing); a call site inside the main loop is generated under a run-once guard (an unguarded one restarts its animation in every pass - by design of animate); "
                  "sketches that are compiled use bare `except:` handlers only (a named exception class becomes catch (<Class> &), undeclared on any core: C06)",
-        "unmodelled": ["device: row outside the display (library clamps the row), millis() wrap-around, speed_ms >= 2^W (wraps in the unsigned cast)",
+        "unmodelled": ["device: row outside the display (library clamps the row); speed_ms >= 2^W (the unsigned cast wraps it: modelled by ulong_cast, but the rate-limit theorems assume speed_ms < 2^W); "
+                       "the executed firmware has W = 64 only (g++ x86-64) - the theorems quantify over W, the 32-bit AVR arithmetic itself is not executed; "
+                       "across the roll-over of millis() the model is exact (C18_rollover_trace_device_partial) but the property's oracle is not evaluated there (register values are not non-decreasing: outside the quantifier); "
+                       "a step taken in the millisecond in which millis() reads 0 is followed by an immediate step (C18_rollover_zero_reading_refuted: outside the quantifier, remark only)",
                        "device: DDRAM addressing beyond 40 columns / 4-row interleaving (shown unreachable by C18_frame_geometry_device)",
                        "host: non-int now_ms / speed_ms, LCD.begin() during an animation"],
         "trusted_base": C.COMMON_TRUSTED + ["harness/impl/c18_impl.py (real LCD object; buffer item assignments recorded by a list subclass; time.sleep replaced by a counter)",
-                                            "mock/LiquidCrystal.h + mock_core.cpp (cursor-addressed DDRAM, LW/LD events, scripted millis())", "g++ 12 -O0",
+                                            "mock/LiquidCrystal.h + mock_core.cpp (cursor-addressed DDRAM, LW/LD events, scripted millis() incl. the clockbase offset that wraps modulo 2^64 like a real counter)", "g++ 12 -O0",
                                             "harness/fw.py, transpile_impl.py"],
     })
-    ctx.assumptions += ["tick timestamps are positive and non-decreasing (the property's quantifier)", "device text literals contain no control characters, quotes or backslashes (string-literal escaping is C06's subject)"]
+    ctx.assumptions += ["tick timestamps are positive and non-decreasing (the property's quantifier)", f"unsigned long has {WBITS} bits in the executed firmware (g++ x86-64); the device theorems quantify over the width W", "device text literals contain no control characters, quotes or backslashes (string-literal escaping is C06's subject)"]
